@@ -1,6 +1,9 @@
 package smtp
 
-import "io"
+import (
+	"errors"
+	"io"
+)
 
 func verif_C04_line() { verifLineHarness("C04") }
 
@@ -86,4 +89,139 @@ func verif_C04_stale() {
 		}
 	}
 	verifAssert(verifGoroutinesAlive() == 0, "C04.stale-no-goroutine-left")
+}
+
+// verif_C04_errors: short histories in which the backend fails its callbacks
+// with errors of every shape (SMTPError 4xx/5xx with and without an enhanced
+// code, explicitly absent enhanced code, plain error). Every reply must be
+// well-formed and - apart from greeting, EHLO and 3xx - carry an enhanced
+// status code whose class equals the class of the reply code (a backend that
+// explicitly opts out with NoEnhancedCode is the one permitted exception).
+func verif_C04_errors() {
+	shapes := func() error {
+		switch verifChoice(6) {
+		case 1:
+			return &SMTPError{Code: 550, Message: "no"}
+		case 2:
+			return &SMTPError{Code: 451, Message: "later"}
+		case 3:
+			return &SMTPError{Code: 552, EnhancedCode: EnhancedCode{5, 3, 4}, Message: "big"}
+		case 4:
+			return errors.New("plain failure")
+		case 5:
+			return &SMTPError{Code: 521, EnhancedCode: NoEnhancedCode, Message: "opt out"}
+		}
+		return nil
+	}
+	lmtp := nondetBool()
+	be := &vbackend{lmtpSession: lmtp && nondetBool()}
+	optedOut := false
+	wrap := func() error {
+		e := shapes()
+		if se, ok := e.(*SMTPError); ok && se.EnhancedCode == NoEnhancedCode {
+			optedOut = true
+		}
+		return e
+	}
+	which := verifChoice(4)
+	switch which {
+	case 0:
+		be.newSessionErr = wrap()
+	case 1:
+		e := wrap()
+		be.mailErr = func(string) error { return e }
+	case 2:
+		e := wrap()
+		be.rcptErr = func(string) error { return e }
+	case 3:
+		e := wrap()
+		be.dataFn = func(_ *vsession, r io.Reader) error { verifReadAll(r, 8); return e }
+		be.lmtpFn = func(_ *vsession, r io.Reader, _ StatusCollector) error { verifReadAll(r, 8); return e }
+	}
+	s, _ := verifServer(be)
+	s.LMTP = lmtp
+	hello := "EHLO c\r\n"
+	if lmtp {
+		hello = "LHLO c\r\n"
+	}
+	tail := "DATA\r\nx\r\n.\r\n"
+	if nondetBool() {
+		tail = "BDAT 1 LAST\r\nx"
+	}
+	in := hello + "MAIL FROM:<a@v>\r\nRCPT TO:<b@v>\r\n" + tail + "NOOP\r\n"
+	vc, _, _ := verifServe(s, []byte(in), io.EOF)
+	reps, wf := verifParseReplies(vc.out)
+	verifObserve("c04e", which, lmtp, wf, len(reps))
+	verifAssert(wf && len(reps) >= 5, "C04.errors-replies-wellformed")
+	if !wf {
+		return
+	}
+	for i, r := range reps {
+		if i == 0 || r.code/100 == 3 || (r.code == 250 && len(r.lines) > 1) {
+			continue
+		}
+		if optedOut && !r.hasEn {
+			continue
+		}
+		verifAssert(r.hasEn && r.enh[0] == r.code/100, "C04.enhanced-code-class-matches-reply-code")
+	}
+	verifAssert(reps[len(reps)-1].code == 250, "C04.errors-command-mode-after")
+	verifReach("C04.errors-end")
+}
+
+// verif_C04_pipeline: one conversation (DATA under a size limit around the
+// message size, then BDAT, then NOOP and QUIT) sent fully pipelined in one
+// segment, octet by octet, and with one cut at an arbitrary position. The
+// reply stream must be the same in all three disciplines and contain exactly
+// one reply per command (plus the 354).
+func verif_C04_pipeline() {
+	verifPreemptBound(0)
+	msg := nondetBytesN(2)
+	for _, ch := range msg {
+		assume(ch != '.' && ch != '\r' && ch != '\n')
+	}
+	m := len(msg) + 2
+	limit := []int{0, m - 1, m, m + 1}[verifChoice(4)]
+	in := []byte("EHLO c\r\nMAIL FROM:<a@v>\r\nRCPT TO:<b@v>\r\nDATA\r\n")
+	in = append(in, msg...)
+	in = append(in, "\r\n.\r\nMAIL FROM:<a2@v>\r\nRCPT TO:<b2@v>\r\nBDAT 2 LAST\r\nxyNOOP\r\nQUIT\r\n"...)
+	run := func(seg int, cut int) []byte {
+		be := &vbackend{}
+		s, _ := verifServer(be)
+		s.MaxMessageBytes = int64(limit)
+		vc := &vconn{in: in, final: io.EOF, seg: seg}
+		if cut > 0 {
+			vc.cuts = []int{cut}
+		}
+		c := newConn(vc, s)
+		s.handleConn(c)
+		verifSettle()
+		return vc.out
+	}
+	ref := run(0, 0)
+	reps, wf := verifParseReplies(ref)
+	verifObserve("c04p", msg, limit, wf, len(reps))
+	verifAssert(wf, "C04.pipeline-wellformed")
+	if !wf {
+		return
+	}
+	// greeting + EHLO MAIL RCPT DATA(354 + final) MAIL RCPT BDAT NOOP QUIT
+	verifAssert(len(reps) == 11, "C04.pipeline-one-reply-per-command")
+	if len(reps) == 11 {
+		verifAssert(reps[4].code == 354 && reps[10].code == 221 && reps[9].code == 250, "C04.pipeline-replies-in-order")
+		if limit == 0 || m <= limit {
+			verifReach("C04.pipeline-accepted")
+			verifAssert(reps[5].code == 250, "C04.pipeline-message-accepted")
+		} else {
+			verifReach("C04.pipeline-too-large")
+			verifAssert(reps[5].code == 552, "C04.pipeline-message-refused")
+		}
+	}
+	switch verifChoice(2) {
+	case 0:
+		verifAssert(string(run(1, 0)) == string(ref), "C04.octet-by-octet-same-replies")
+	case 1:
+		cut := nondetInt(1, len(in)-1)
+		verifAssert(string(run(0, cut)) == string(ref), "C04.any-cut-same-replies")
+	}
 }
